@@ -33,7 +33,7 @@ from torch_frame.data import MultiEmbeddingTensor, MultiNestedTensor  # noqa: E4
 PROP = "C11"
 HEADER = "Require Import PF.Gen.Tables PF.Model.IO PF.Model.IORun PF.Model.IOSup PF.Model.IOSupRun."
 MODEL_TARGETS = ["Model/IORun.vo", "Model/IOSupRun.vo"]
-SHARD = 40
+SHARD = 95
 RULE = ("frames of 1-10 rows over all nine stypes (dict-valued text_tokenized, both tokenizer output formats) "
         "materialized by Dataset; saveload cases take the frame whole / as slice view / view of a view / index "
         "selection / row- and column-concatenation / zero rows / re-wrapped with an explicit num_rows, with and "
@@ -155,6 +155,10 @@ BOUNDARIES = [
     ("hist-derived-0-rows", "derived dataset ds[:0] calls materialize(path)"),
     ("hist-derived-all-rows", "derived dataset ds[:n] (all rows) calls materialize(path)"),
     ("hist-rewrite-same-size-table", "the path handed to another table with the SAME number of rows"),
+    ("hist-supplied-binary-target-unsorted", "statistics supplied list the two classes of a binary categorical target in "
+                                             "NON-sorted order; cached, restored by a new Dataset, new rows converted"),
+    ("hist-supplied-multiclass-target-unsorted", "the same with three classes in reversed order"),
+    ("hist-supplied-binary-target-raw", "supplied target statistics raw from compute_col_stats (frequency order)"),
     ("hist-supplied-equals-own", "col_stats supplied are the table's OWN statistics (supplied == computed)"),
     # --- crash points
     ("trunc-smallest-file", "truncation sweep of the smallest cache (1 row, 1 column)"),
@@ -165,6 +169,53 @@ BOUNDARIES = [
     ("trunc-k-zip-records", "k on / next to every kind of zip record signature present in the file"),
 ]
 BOUNDARY_NAMES = [b for b, _ in BOUNDARIES]
+
+# Every raise / assert / try-except / special-case branch / dtype or container conversion of the anchored code
+# (utils/io.py, the cache branches of Dataset.materialize, _MultiTensor.to_dict + keyword constructors,
+# TensorFrame.validate as called by load): (site, generator kind that reaches it, oracle key that notices when it
+# is removed, loosened or replaced by a default).  stats()["error_paths"] counts the reaching cases of each run and
+# sanity() requires every reachable one.
+ERROR_PATHS = [
+    ("io.serialize_feat_dict: assert isinstance(feat, _MultiTensor) / dict / MultiNestedTensor / Tensor",
+     "malformed:* (a stype holding the wrong container class)", "malformed:silently-different"),
+    ("io.deserialize_feat_dict: assert isinstance(feat_serialized, Tensor)", "crafted:dense-stype-given-dict",
+     "crafted:inconsistent-frame"),
+    ("MultiNestedTensor( **d ) / MultiEmbeddingTensor( **d ): TypeError on a missing key, validate() asserts",
+     "crafted:mnt-missing-key, crafted:mnt-offset-too-short, crafted:met-as-mnt", "crafted:inconsistent-frame"),
+    ("TensorFrame( **tf_dict ).validate(): key sets, num_cols, num_rows, len(y)",
+     "crafted:names-keys-mismatch, crafted:y-length-mismatch", "crafted:inconsistent-frame"),
+    ("io.load: `tf_dict, col_stats = ...` unpacking of the pickled pair", "crafted:payload-not-a-pair",
+     "crafted:inconsistent-frame"),
+    ("io.load: TensorFrame( **tf_dict ) default num_rows=None for files written before the key existed",
+     "crafted:old-format-no-num_rows", "crafted:old-format-rejected / crafted:old-format-differs"),
+    ("io.load: try torch.load(weights_only=True) / except UnpicklingError with 'add_safe_globals' -> warn + "
+     "weights_only=False", "saveload/reuse/history with statistics holding numpy scalars (error_paths: weights-only-fallback)",
+     "load-raises, hist:materialize-raises:complete"),
+    ("io.load: `else: raise e` (any other UnpicklingError) and every exception of torch.load propagating",
+     "trunc (every k), crash / cut events", "trunc:load-partial, trunc:prefix-loads, hist:no-raise-on-cut-cache"),
+    ("io.load: WITH_PT24 else-branch (torch < 2.4)", "UNREACHABLE with the pinned torch", "-"),
+    ("io.load: .to(device)", "device None / 'cpu' / torch.device", "device-differs, stats-types-differ, frame-differs:*"),
+    ("io.save / io.load: NO dtype or container conversion anywhere (tensors, y, statistics pass through)",
+     "handbuilt frames of float64/float16/bfloat16/float32/int32/int16/int64/uint8/bool for every feature kind and y; "
+     "embedders returning float64/float16; typed statistics", "frame-differs:feats|y (dtype code + exact bits), "
+     "stats-types-differ"),
+    ("io.save: 'num_rows': tensor_frame._num_rows", "featureless / explicit_rows variants, gens", "frame-differs:n, load-raises"),
+    ("Dataset.materialize: `if self.is_materialized: if path is not None and not osp.isfile(path): save`",
+     "mat(path) on a materialized object x file absent/present, derived events", "hist:no-file-written, "
+     "hist:derived-overwrote-cache"),
+    ("Dataset.materialize: `if path is not None and osp.isfile(path)`: load, rebuild converter, mark materialized",
+     "new/newdf events x file complete/corrupt/absent", "hist:materialize-raises:*, hist:cached-differs:*, "
+     "hist:raise-but-materialized, hist:convert-raises, hist:restored-converter-differs"),
+    ("Dataset.materialize: binary categorical target classes sorted ONLY in the computed-statistics branch",
+     "force_target + supplied statistics in reversed / raw order (error_paths: unsorted-supplied-target)",
+     "hist:cached-differs:stats|y, hist:restored-converter-differs"),
+    ("Dataset.materialize: asserts on supplied col_stats (column missing / required statistic missing)",
+     "badstats events", "hist:bad-supplied-stats-accepted, hist:failed-materialize-left-cache"),
+    ("Dataset.materialize: `if path is not None: save` after the computation (both statistics sources)",
+     "mat/new/rewrite with path x col_stats=", "hist:no-file-written[:supplied-stats]"),
+    ("Dataset._update_col_stats: int(emb_dim_list[i]) into the statistics before they are cached",
+     "text_embedded / image_embedded / embedding columns in histories", "hist:cached-differs:stats, stats-types-differ"),
+]
 
 _TMP = None
 
@@ -202,6 +253,8 @@ def gen_desc(rng, big=False):
     for c in desc["cols"]:
         if c["stype"] == "text_tokenized":
             c["tok_fmt"] = rng.pick(["list", "dict"])
+        if c["stype"] in ("text_embedded", "image_embedded") and rng.chance(0.35):
+            c["emb_dtype"] = rng.pick(["float64", "float16"])       # embedders need not return float32
     return desc
 
 
@@ -330,6 +383,7 @@ def gen_events(rng, n):
                              (3, {"e": "new", "path": True}), (1, {"e": "new", "path": False}),
                              (2, {"e": "crash", "k": gen_k(rng)}), (3, gen_conv(rng, n)),
                              (2, gen_derived(rng, n)), (2, gen_newdf(rng, n)), (2, gen_rewrite(rng, n)),
+                             (1, {"e": "badstats", "drop": rng.pick(["column", "statkey"])}),
                              (2, gen_cut(rng))]))
     return ev
 
@@ -478,6 +532,8 @@ def gen_boundaries(rng):
     M, N, MN = {"e": "mat", "path": True}, {"e": "new", "path": True}, {"e": "mat", "path": False}
     conv = lambda rows, shift=False: {"e": "conv", "rows": rows, "shift": shift}   # noqa: E731
     hist("hist-single-materialize", dh, [dict(M)])
+    out.append({"kind": "history", "frame": dh, "events": [{"e": "badstats", "drop": "column"}, {"e": "badstats", "drop": "statkey"},
+                                                           dict(M), dict(N)]})
     hist("hist-same-object-twice", dh, [dict(M), dict(M), conv([0, 3])])
     hist("hist-new-twice", dh, [dict(M), dict(N), dict(N), conv([4, 2], True)])
     hist("hist-one-row-table", make_desc(rng, ["categorical", "sequence_numerical", "embedding"], 1),
@@ -496,6 +552,15 @@ def gen_boundaries(rng):
     hist("hist-derived-all-rows", dh, [dict(M), {"e": "derived", "op": {"t": "slice", "k": 5}, "path": True}, dict(N)])
     hist("hist-rewrite-same-size-table", dh, [dict(M), dict(N), {"e": "rewrite", "how": "remove", "rows": [4, 3, 2, 1, 0],
                                                                  "shift": True}, dict(N), conv([0, 1])])
+    dbin = force_target(make_desc(rng, ["numerical", "categorical", "text_embedded"], 5), ["a", "b"])
+    dtri = force_target(make_desc(rng, ["numerical", "multicategorical"], 6), ["x", "m", "b"])
+    own = {"rows": [0, 1, 2, 3, 4], "shift": False}
+    hist("hist-supplied-binary-target-unsorted", dbin, [dict(M), dict(N), conv([0, 1, 4]), gen_newdf(rng, 5), conv([1, 0])],
+         supplied_first=dict(own, order="reverse"))
+    hist("hist-supplied-multiclass-target-unsorted", dtri, [dict(M), dict(N), conv([0, 1, 2, 5])],
+         supplied_first=dict(rows=[0, 1, 2, 3, 4, 5], shift=False, order="reverse"))
+    hist("hist-supplied-binary-target-raw", dbin, [dict(MN), dict(M), dict(N), conv([0, 4])],
+         supplied_first=dict(own, order="raw"))
     hist("hist-supplied-equals-own", dh, [dict(M), dict(N), conv([1, 4], True)],
          supplied_first={"rows": [0, 1, 2, 3, 4], "shift": False})
 
@@ -512,8 +577,12 @@ def gen_boundaries(rng):
 
 
 def generate(rng, tier):
-    n_sl, n_h, n_t = (260, 140, 5) if tier == "quick" else (6000, 3000, 60)
+    n_sl, n_h, n_t = (220, 120, 5) if tier == "quick" else (6000, 3000, 60)
     cases = gen_boundaries(rng)
+    nofr = {"n": 0, "cols": [], "target": None, "index": "range", "col_order": []}
+    cases += [{"kind": "crafted", "what": w, "frame": nofr} for w in CRAFTED]
+    cases += [{"kind": "malformed", "what": w, "frame": nofr} for w in MALFORMED]
+    cases += [gen_handbuilt(rng, dtype=dt) for dt in TORCH_DT]          # every numeric backing in every run
     for i in range(n_sl):
         if i % 8 == 3:
             cases.append(gen_featureless(rng))
@@ -527,6 +596,8 @@ def generate(rng, tier):
             case["explicit_rows"] = True
         cases.append(case)
     for _ in range(n_sl // 8):
+        cases.append(gen_handbuilt(rng))
+    for _ in range(n_sl // 8):
         cases.append(gen_reuse(rng))
     for j in range(n_sl // 8):
         cases.append(gen_gens(rng, featureless_base=(j % 4 == 0)))
@@ -538,10 +609,15 @@ def generate(rng, tier):
                 e["device"] = rng.pick(["cpu", "torch.device"])
             if e["e"] == "rewrite" and rng.chance(0.4):
                 e["supplied"] = True       # materialize(path=p, col_stats=<statistics of the table before>)
+                e["order"] = rng.pick([None, "reverse", "raw"])
+        if desc["n"] >= 3 and rng.chance(0.3):      # binary / multiclass categorical target, majority class last
+            desc = force_target(desc, rng.pick([["a", "b"], ["a", "b"], ["x", "m", "b"], [3, 1], ["b", "a"]]))
         case = {"kind": "history", "frame": desc, "events": evs}
         if rng.chance(0.3):               # every materialize of the history is given a training set's statistics
             case["supplied_first"] = {"rows": [rng.randint(0, desc["n"] - 1) for _ in range(rng.randint(2, 5))],
-                                      "shift": rng.chance(0.7)}
+                                      "shift": rng.chance(0.7), "order": rng.pick([None, "reverse", "raw"])}
+            if rng.chance(0.4):           # ... the table's own rows: every class is seen
+                case["supplied_first"].update(rows=list(range(desc["n"])), shift=False)
         cases.append(case)
     for _ in range(n_t):
         desc = gen_desc(rng, big=rng.chance(0.5))
@@ -552,7 +628,7 @@ def generate(rng, tier):
 
 # ------------------------------------------------------------------ readers
 DT = {torch.float32: 1, torch.float64: 2, torch.int64: 3, torch.int32: 4, torch.bool: 5, torch.int16: 6,
-      torch.int8: 7, torch.uint8: 8, torch.float16: 9}
+      torch.int8: 7, torch.uint8: 8, torch.float16: 9, torch.bfloat16: 10}
 
 
 def enc_tensor(t):
@@ -740,8 +816,43 @@ def digest(js):
 
 
 # ------------------------------------------------------------------ running
+TORCH_DT = {"float64": torch.float64, "float16": torch.float16, "bfloat16": torch.bfloat16, "float32": torch.float32,
+            "int32": torch.int32, "uint8": torch.uint8, "bool": torch.bool, "int16": torch.int16, "int64": torch.int64}
+
+
+class DtypeTextEmbedder(G.StubTextEmbedder):
+    """stub embedder whose output is NOT float32 (values not representable in a narrower / wider dtype)"""
+    def __init__(self, w, dtype):
+        super().__init__(w)
+        self.dtype = dtype
+
+    def __call__(self, xs):
+        out = super().__call__(xs).to(torch.float64) / 3.0 + 0.1
+        return out.to(TORCH_DT[self.dtype])
+
+
+class DtypeImageEmbedder(G.StubImageEmbedder):
+    def __init__(self, w, dtype):
+        super().__init__(w)
+        self.dtype = dtype
+
+    def forward_embed(self, images):
+        out = super().forward_embed(images).to(torch.float64) / 3.0 + 0.1
+        return out.to(TORCH_DT[self.dtype])
+
+
+def build_ds(desc, df=None, **kw):
+    """G.build_dataset with the columns' embedder output dtype honoured (`emb_dtype`)"""
+    stubs = {}
+    for c in desc["cols"]:
+        if c.get("emb_dtype"):
+            stubs[c["name"]] = (DtypeTextEmbedder(3, c["emb_dtype"]) if c["stype"] == "text_embedded"
+                                else DtypeImageEmbedder(2, c["emb_dtype"]))
+    return G.build_dataset(desc, df=df, stubs=stubs, **kw)
+
+
 def materialized(desc, df=None):
-    ds, _ = G.build_dataset(desc, df=df)
+    ds, _ = build_ds(desc, df=df)
     ds.materialize()
     return ds
 
@@ -795,8 +906,8 @@ def apply_variant(case, ds):
         b = [c for c in df.columns if c in names[h:]]
         d1 = dict(desc)
         d2 = dict(desc, target=None)
-        ds1, _ = G.build_dataset(d1, df=df[a])
-        ds2, _ = G.build_dataset(d2, df=df[b])
+        ds1, _ = build_ds(d1, df=df[a])
+        ds2, _ = build_ds(d2, df=df[b])
         ds1.materialize()
         ds2.materialize()
         return torch_frame.cat([ds1.tensor_frame, ds2.tensor_frame], dim=1)
@@ -809,7 +920,72 @@ def apply_variant(case, ds):
     raise ValueError(v)
 
 
+def handbuilt(v):
+    """A TensorFrame built directly from tensors of ONE dtype for every feature kind and y (values that a cast
+    to another floating dtype would change)."""
+    from torch_frame import stype as ST
+    dt, n = TORCH_DT[v["dtype"]], v["n"]
+
+    def mk(shape, salt):
+        k = 1
+        for d in shape:
+            k *= d
+        base = (torch.arange(k, dtype=torch.float64) * 7 + salt) % 11
+        t = (base / 3.0 + 0.1) if dt.is_floating_point else base
+        return t.reshape(shape).to(dt)
+
+    def mnt(nc, salt):
+        lens = [(i * 3 + j + salt) % 3 for i in range(n) for j in range(nc)]
+        off = torch.tensor([0] + list(__import__("itertools").accumulate(lens)), dtype=torch.long)
+        return MultiNestedTensor(num_rows=n, num_cols=nc, values=mk([int(off[-1])], salt), offset=off)
+    feats, names = {}, {}
+    for k in v["kinds"]:
+        if k == "numerical":
+            feats[ST.numerical], names[ST.numerical] = mk([n, 2], 1), ["a", "b"]
+        elif k == "categorical":
+            feats[ST.categorical], names[ST.categorical] = mk([n, 1], 2), ["c"]
+        elif k == "timestamp":
+            feats[ST.timestamp], names[ST.timestamp] = mk([n, 1, 7], 3), ["t"]
+        elif k == "multicategorical":
+            feats[ST.multicategorical], names[ST.multicategorical] = mnt(2, 4), ["d", "e"]
+        elif k == "sequence_numerical":
+            feats[ST.sequence_numerical], names[ST.sequence_numerical] = mnt(1, 5), ["f"]
+        elif k == "embedding":
+            feats[ST.embedding] = MultiEmbeddingTensor(num_rows=n, num_cols=2, values=mk([n, 3], 6),
+                                                       offset=torch.tensor([0, 1, 3]))
+            names[ST.embedding] = ["h", "i"]
+        elif k == "text_tokenized":
+            feats[ST.text_tokenized] = {"input_ids": mnt(1, 7), "attention_mask": mnt(1, 8)}
+            names[ST.text_tokenized] = ["j"]
+    y = None if v.get("ydtype") is None else mk([n], 9).to(TORCH_DT[v["ydtype"]])
+    tf = torch_frame.TensorFrame(feats, names, y=y)
+    if v.get("rows") is not None:
+        tf = tf[v["rows"][0]:v["rows"][1]]
+    return tf
+
+
+HAND_KINDS = ["numerical", "categorical", "timestamp", "multicategorical", "sequence_numerical", "embedding",
+              "text_tokenized"]
+
+
+def gen_handbuilt(rng, dtype=None, boundary=None):
+    dtype = dtype or rng.pick(list(TORCH_DT))
+    n = rng.pick([0, 1, 3, 4])
+    kinds = HAND_KINDS if rng.chance(0.5) else rng.sample(HAND_KINDS, rng.randint(1, 4))
+    v = {"v": "handbuilt", "dtype": dtype, "n": n, "kinds": kinds,
+         "ydtype": rng.pick([None, dtype, "float64", "int64", "float16", "bool"]),
+         "rows": None if n < 3 or rng.chance(0.6) else [1, 3]}
+    c = {"kind": "saveload", "frame": {"n": n, "cols": [{"name": k, "stype": k} for k in kinds], "target": None,
+                                       "index": "range", "col_order": list(kinds)},
+         "variant": v, "with_stats": False, "device": gen_device(rng)}
+    if boundary:
+        c["boundary"] = boundary
+    return c
+
+
 def prepare(case):
+    if case["variant"]["v"] == "handbuilt":
+        return handbuilt(case["variant"]), None
     if case["variant"]["v"] == "featureless":
         return featureless(case["variant"]), ({} if case["with_stats"] else None)
     ds = materialized(case["frame"])
@@ -900,6 +1076,116 @@ def run_gens(case):
         rm(p)
 
 
+def small_frame():
+    return handbuilt({"dtype": "float32", "n": 3, "kinds": ["numerical", "multicategorical", "embedding"],
+                      "ydtype": "int64"})
+
+
+CRAFTED = ["old-format-no-num_rows", "dense-stype-given-dict", "mnt-offset-too-short", "mnt-missing-key", "met-as-mnt",
+           "names-keys-mismatch", "y-length-mismatch", "payload-not-a-pair"]
+MALFORMED = ["numerical-holds-mnt", "multicategorical-holds-tensor", "tokenized-holds-mnt"]
+
+
+def run_crafted(case):
+    """a file written with torch.save directly: the current format minus a key (must load), or an inconsistent
+    payload (load must raise or at least never hand back an inconsistent frame)"""
+    from torch_frame import stype as ST
+    from torch_frame.utils.io import serialize_feat_dict
+    tf = small_frame()
+    d = {"y": tf.y, "col_names_dict": {k: list(v) for k, v in tf.col_names_dict.items()},
+         "feat_serialized_dict": serialize_feat_dict(tf.feat_dict), "num_rows": None}
+    ser = d["feat_serialized_dict"]
+    w = case["what"]
+    payload = (d, None)
+    if w == "old-format-no-num_rows":
+        del d["num_rows"]
+    elif w == "dense-stype-given-dict":
+        ser[ST.numerical] = dict(ser[ST.multicategorical])
+    elif w == "mnt-offset-too-short":
+        ser[ST.multicategorical] = dict(ser[ST.multicategorical], offset=ser[ST.multicategorical]["offset"][:-2])
+    elif w == "mnt-missing-key":
+        ser[ST.multicategorical] = {k: v for k, v in ser[ST.multicategorical].items() if k != "num_cols"}
+    elif w == "met-as-mnt":
+        ser[ST.embedding] = dict(ser[ST.multicategorical])
+    elif w == "names-keys-mismatch":
+        del d["col_names_dict"][ST.embedding]
+    elif w == "y-length-mismatch":
+        d["y"] = tf.y[:-1]
+    elif w == "payload-not-a-pair":
+        payload = d
+    p = fresh_path("cr")
+    obs = {"expected": obs_frame(tf)}
+    try:
+        torch.save(payload, p)
+        try:
+            tf2, st2 = torch_frame.load(p)
+        except Exception as ex:
+            obs.update(raised=True, exc=C.exc_name(ex), msg=str(ex)[:200])
+            return obs
+        obs["raised"] = False
+        try:
+            tf2.validate()
+            o2 = obs_frame(tf2)
+            rows = {p_[1] if k in ("nested", "embed") else (p_[1][0] if k == "tensor" else None)
+                    for _, k, p_ in o2["feats"] if k != "dict"}
+            obs.update(consistent=rows <= {o2["n"]}, got=o2)
+        except Exception as ex:
+            obs.update(consistent=False, why=C.exc_name(ex) + ": " + str(ex)[:200])
+        return obs
+    finally:
+        rm(p)
+
+
+def oracle_crafted(case, obs):
+    w = case["what"]
+    if w == "old-format-no-num_rows":
+        if obs["raised"]:
+            return dict(key="crafted:old-format-rejected", what=f"a cache file without the 'num_rows' key (written before "
+                        f"it existed) no longer loads: {obs['exc']} {obs['msg']}")
+        if obs.get("got") != obs["expected"]:
+            return dict(key="crafted:old-format-differs", what="a cache file without the 'num_rows' key loads to a "
+                        "different frame", expected=obs["expected"], observed=obs.get("got"))
+        return None
+    if not obs["raised"] and not obs["consistent"]:
+        return dict(key="crafted:inconsistent-frame", what=f"torch_frame.load of an inconsistent payload ({w}) did not "
+                    f"raise and handed back a frame that is not consistent with itself ({obs.get('why', 'row counts')})",
+                    expected="raise", observed=obs.get("got"))
+    return None
+
+
+def run_malformed(case):
+    """a frame whose stype holds the wrong container class: save/load may raise, never change the data silently"""
+    from torch_frame import stype as ST
+    tf = small_frame()
+    mnt, dense = tf.feat_dict[ST.multicategorical], tf.feat_dict[ST.numerical]
+    w = case["what"]
+    if w == "numerical-holds-mnt":
+        bad = torch_frame.TensorFrame({ST.numerical: mnt}, {ST.numerical: ["d", "e"]})
+    elif w == "multicategorical-holds-tensor":
+        bad = torch_frame.TensorFrame({ST.multicategorical: dense}, {ST.multicategorical: ["a", "b"]})
+    else:
+        bad = torch_frame.TensorFrame({ST.text_tokenized: mnt}, {ST.text_tokenized: ["d", "e"]})
+    p = fresh_path("mf")
+    try:
+        pre = obs_frame(bad)
+        try:
+            torch_frame.save(bad, None, p)
+            tf2, _ = torch_frame.load(p)
+        except Exception as ex:
+            return {"raised": True, "exc": C.exc_name(ex)}
+        return {"raised": False, "same": obs_frame(tf2) == pre, "pre": pre, "post": obs_frame(tf2)}
+    finally:
+        rm(p)
+
+
+def oracle_malformed(case, obs):
+    if not obs["raised"] and not obs["same"]:
+        return dict(key="malformed:silently-different", what=f"a frame whose stype holds the wrong container "
+                    f"({case['what']}) was saved and loaded without an error but came back different",
+                    expected=obs["pre"], observed=obs["post"])
+    return None
+
+
 def run_reuse(case):
     """all steps save onto the SAME path (never removed in between)"""
     try:
@@ -976,13 +1262,40 @@ def derive(ds, op):
     return ds.index_select(torch.tensor([i % n for i in op["idx"]], dtype=torch.long))
 
 
+def reorder_target(stats, desc, train_df, order):
+    """Statistics a user supplies need not list a categorical target's classes in sorted order (materialize sorts
+    a BINARY target's classes only when it computes the statistics itself): reversed, or raw from compute_col_stats."""
+    from torch_frame.data.stats import StatType, compute_col_stats
+    t = desc["target"]
+    if order is None or t is None or StatType.COUNT not in stats.get(t, {}):
+        return stats
+    if order == "raw":
+        stats[t] = compute_col_stats(train_df[t], torch_frame.categorical)
+    else:
+        idx, val = stats[t][StatType.COUNT]
+        stats[t][StatType.COUNT] = (list(idx)[::-1], list(val)[::-1])
+    return stats
+
+
+def force_target(desc, classes):
+    """a categorical target with exactly these classes; the LAST class is the most frequent one, so that
+    frequency order, sorted order and reversed order all differ where they can"""
+    n = desc["n"]
+    cells = [classes[i] if i < len(classes) - 1 else classes[-1] for i in range(n)]
+    cols = [c for c in desc["cols"] if c["name"] != desc["target"]]
+    cols.append({"name": "tgt", "stype": "categorical", "dtype": "object", "sep": None, "fmt": None, "width": None,
+                 "cells": cells, "nan_kind": "none"})
+    return dict(desc, cols=cols, target="tgt",
+                col_order=[x for x in desc["col_order"] if x != desc["target"] and x != "tgt"] + ["tgt"])
+
+
 class Ref:
     """The table the cache path currently stands for -- and, when the history materializes with statistics
     SUPPLIED by the user (`materialize(col_stats=...)`, e.g. the training set's), those statistics -- with its
     fresh computation (same keyword arguments, no path involved)."""
     def __init__(self, desc, df, refs, supplied=None):
         self.desc, self.df, self.supplied = desc, df, supplied
-        self.fresh = G.build_dataset(desc, df=df)[0]
+        self.fresh = build_ds(desc, df=df)[0]
         self.fresh.materialize(**self.kw())
         self.obs, self.stats = obs_frame(self.fresh.tensor_frame), stats_json(self.fresh.col_stats)
         self.id = len(refs)
@@ -994,7 +1307,7 @@ class Ref:
         return {} if self.supplied is None else {"col_stats": copy.deepcopy(self.supplied)}
 
     def new(self):
-        return G.build_dataset(self.desc, df=self.df)[0]
+        return build_ds(self.desc, df=self.df)[0]
 
 
 def run_history(case):
@@ -1004,7 +1317,9 @@ def run_history(case):
         df0 = G.build_df(desc)
         supplied = None
         if case.get("supplied_first") is not None:     # statistics of a "training" dataset over another table
-            supplied = copy.deepcopy(materialized(desc, df=other_table(df0, case["supplied_first"])).col_stats)
+            train_df = other_table(df0, case["supplied_first"])
+            supplied = reorder_target(copy.deepcopy(materialized(desc, df=train_df).col_stats), desc, train_df,
+                                      case["supplied_first"].get("order"))
         ref = Ref(desc, df0, obs["refs"], supplied)
     except Exception as ex:
         return {"skip": f"preparation raised {C.exc_name(ex)}: {str(ex)[:200]}"}
@@ -1036,7 +1351,7 @@ def run_history(case):
                     st["skipped"] = "no cache file"
                 else:
                     sha = file_sha(path)
-                    cur = G.build_dataset(desc, df=other_table(ref.df, ev))[0]
+                    cur = build_ds(desc, df=other_table(ref.df, ev))[0]
                     observe(st, cur, lambda: cur.materialize(path=path, **ref.kw()))
                     if not st["ok"]:
                         cur = ref.new()
@@ -1046,7 +1361,8 @@ def run_history(case):
                 # complete file written elsewhere) -- from here on the path stands for the other table
                 try:
                     # optionally the other table is materialized with the statistics of the table before it
-                    sup = copy.deepcopy(ref.fresh.col_stats) if ev.get("supplied") else None
+                    sup = (reorder_target(copy.deepcopy(ref.fresh.col_stats), desc, ref.df, ev.get("order"))
+                           if ev.get("supplied") else None)
                     ref2 = Ref(desc, other_table(ref.df, ev), obs["refs"], sup)
                 except Exception as ex:
                     st["skipped"] = f"other table does not materialize: {C.exc_name(ex)}"
@@ -1075,6 +1391,28 @@ def run_history(case):
                                 f.write(data)
                         rm(path2)
                         cur = ref.new()
+            elif ev["e"] == "badstats":
+                # materialize(path, col_stats=<statistics lacking a column / a required statistic>) must fail and
+                # must not leave a cache behind
+                if before != "absent":
+                    st["skipped"] = "a cache file exists (the statistics argument is then ignored)"
+                else:
+                    from torch_frame.data.stats import StatType
+                    bad = copy.deepcopy(ref.fresh.col_stats)
+                    cols = [c for c in bad if StatType.stats_for_stype(ref.fresh.col_to_stype[c])]
+                    if ev["drop"] == "statkey" and cols:
+                        c0 = cols[0]
+                        del bad[c0][StatType.stats_for_stype(ref.fresh.col_to_stype[c0])[0]]
+                    else:
+                        del bad[next(iter(bad))]
+                    d = ref.new()
+                    try:
+                        d.materialize(path=path, col_stats=bad)
+                        st["ok"] = True
+                    except Exception as ex:
+                        st.update(ok=False, exc=C.exc_name(ex))
+                    st.update(materialized_after=bool(d.is_materialized), file_after=os.path.isfile(path))
+                    rm(path)
             elif ev["e"] == "cut":
                 # the complete file is cut short IN PLACE (it may have been loaded before); the process restarts
                 if before != "complete":
@@ -1196,7 +1534,7 @@ def run_trunc(case):
             if src is not None:
                 torch_frame.save(tf0, {}, p)
             else:
-                G.build_dataset(desc, df=df)[0].materialize(path=p)
+                build_ds(desc, df=df)[0].materialize(path=p)
         except Exception as ex:
             return {"ok": False, "exc": C.exc_name(ex), "msg": str(ex)[:300]}
         if not os.path.isfile(p):
@@ -1236,7 +1574,7 @@ def run_trunc(case):
             with open(q, "wb") as f:
                 f.write(b[:k])
             other = j % 2 == 1                    # new data: a silent recomputation shows as different statistics
-            ds = G.build_dataset(desc, df=df2 if other else df)[0]
+            ds = build_ds(desc, df=df2 if other else df)[0]
             try:
                 ds.materialize(path=q)
                 obs["mat_returned"].append({"k": k, "other_table": other,
@@ -1258,6 +1596,10 @@ def run(case):
         return run_reuse(case)
     if case["kind"] == "gens":
         return run_gens(case)
+    if case["kind"] == "crafted":
+        return run_crafted(case)
+    if case["kind"] == "malformed":
+        return run_malformed(case)
     if case["kind"] == "history":
         return run_history(case)
     return run_trunc(case)
@@ -1363,6 +1705,15 @@ def oracle_history_events(case, obs):
         if "skipped" in st:
             continue
         fresh = obs["refs"][st["ref"]]     # the table the cache path stands for at this event
+        if ev["e"] == "badstats":
+            if st["ok"]:
+                return dict(key="hist:bad-supplied-stats-accepted", what=f"event {i}: materialize(path, col_stats=<statistics "
+                            f"lacking a {ev['drop']}>) did not raise" + (" and wrote a cache file" if st["file_after"] else ""),
+                            event=ev)
+            if st["file_after"] or st["materialized_after"]:
+                return dict(key="hist:failed-materialize-left-cache", what=f"event {i}: materialize(path, col_stats=<bad>) "
+                            f"raised {st['exc']} but left a cache file / a materialized object behind", event=ev)
+            continue
         if ev["e"] == "cut":
             mat = False
             if st["k"] < st["len"] and after != "corrupt":
@@ -1512,6 +1863,10 @@ def oracle(case, obs):
         return oracle_reuse(case, obs)
     if case["kind"] == "gens":
         return oracle_gens(case, obs)
+    if case["kind"] == "crafted":
+        return oracle_crafted(case, obs)
+    if case["kind"] == "malformed":
+        return oracle_malformed(case, obs)
     if case["kind"] == "history":
         return oracle_history(case, obs)
     return oracle_trunc(case, obs)
@@ -1587,6 +1942,8 @@ def stypes_of(case):
 def nontrivial_sig(case, obs):
     if obs is None or "skip" in obs or "harness_exc" in obs:
         return None
+    if case["kind"] in ("crafted", "malformed"):
+        return json.dumps([case["kind"], case["what"], obs.get("raised")])
     sig = [case["kind"], stypes_of(case), case["frame"]["target"] is not None]
     if case["kind"] == "saveload":
         if "file_len" not in obs or not (obs["raw"]["feats"] or obs["pre"]["n"] > 0):
@@ -1622,9 +1979,33 @@ def stats(cases, obss):
          "rows": {}, "without_target": 0, "without_stats": 0, "truncation_points": 0, "truncation_files": 0,
          "truncation_exc_types": {}, "materialize_on_cut_file": 0, "raises_in_histories": 0, "file_len": []}
     d["boundaries"] = {}
+    ep = d["error_paths"] = {}
+
+    def hit(k):
+        ep[k] = ep.get(k, 0) + 1
     for c, o in zip(cases, obss):
         if c is None or o is None:
             continue
+        if c["kind"] in ("crafted", "malformed"):
+            hit(c["kind"] + ":" + c["what"] + (":raised" if o.get("raised") else ":returned"))
+            d["kinds"][c["kind"]] = d["kinds"].get(c["kind"], 0) + 1
+            continue
+        if c["kind"] == "saveload" and o.get("ok"):
+            if c["variant"]["v"] == "handbuilt":
+                hit("handbuilt-dtype:" + c["variant"]["dtype"])
+            for st_, k_, p_ in o["raw"]["feats"]:
+                if k_ == "embed" and p_["v"][0] in (2, 9) and c["variant"]["v"] != "handbuilt":
+                    hit("embedder-dtype:" + ("float64" if p_["v"][0] == 2 else "float16"))
+            if json.dumps(o["pre_typed"]).find('"numpy"') >= 0:
+                hit("weights-only-fallback")
+        if c["kind"] == "history" and "refs" in o:
+            for e_, s_ in zip(c["events"], o["steps"]):
+                if e_["e"] == "badstats" and "skipped" not in s_:
+                    hit("badstats:" + e_["drop"])
+            for r_ in o["refs"]:
+                if r_.get("supplied") and target_order(r_) is not None and len(target_order(r_)) >= 2 and \
+                        target_order(r_) != sorted(target_order(r_), key=str):
+                    hit("unsorted-supplied-target:" + ("binary" if len(target_order(r_)) == 2 else "multiclass"))
         for b in (c.get("boundary") or "").split(","):
             if b and boundary_hit(b, c, o):
                 d["boundaries"][b] = d["boundaries"].get(b, 0) + 1
@@ -1691,6 +2072,15 @@ def stats(cases, obss):
     return d
 
 
+def target_order(ref):
+    return (ref["stats"].get("tgt", {}).get("COUNT") or [None])[0]
+
+
+def unsorted_classes(ref, k):
+    o = target_order(ref)
+    return bool(ref.get("supplied")) and o is not None and len(o) == k and o != sorted(o, key=str)
+
+
 def boundary_hit(name, case, obs):
     """Was the boundary REALLY reached by this run of its dedicated case (not only drawn)?"""
     if obs is None or "skip" in obs or "harness_exc" in obs:
@@ -1742,6 +2132,9 @@ def boundary_hit(name, case, obs):
             "hist-derived-all-rows": lambda: steps[1].get("derived_rows") == case["frame"]["n"],
             "hist-rewrite-same-size-table": lambda: obs["refs"][1]["obs"]["n"] == obs["refs"][0]["obs"]["n"],
             "hist-supplied-equals-own": lambda: obs["refs"][0]["supplied"],
+            "hist-supplied-binary-target-unsorted": lambda: unsorted_classes(obs["refs"][0], 2),
+            "hist-supplied-multiclass-target-unsorted": lambda: unsorted_classes(obs["refs"][0], 3),
+            "hist-supplied-binary-target-raw": lambda: unsorted_classes(obs["refs"][0], 2),
             "hist-one-row-table": lambda: obs["refs"][0]["obs"]["n"] == 1,
         }
         return checks.get(name, lambda: True)()
@@ -1786,6 +2179,13 @@ def sanity(cases, obss):
             for k in special:
                 special[k] += 1 if o["special"][k] else 0
     d = stats(cases, obss)
+    need = (["crafted:" + w for w in CRAFTED] + ["malformed:" + w for w in MALFORMED] +
+            ["handbuilt-dtype:" + k for k in TORCH_DT] + ["embedder-dtype:float64", "embedder-dtype:float16",
+             "weights-only-fallback", "badstats:column", "badstats:statkey", "unsorted-supplied-target:binary",
+             "unsorted-supplied-target:multiclass"])
+    for k in need:
+        if not any(x == k or x.startswith(k + ":") for x in d["error_paths"]):
+            probs.append(f"error path {k} not reached")
     for b in BOUNDARY_NAMES:
         if d["boundaries"].get(b, 0) == 0:
             probs.append(f"boundary {b} not reached")
@@ -1924,6 +2324,8 @@ def coq_term(case, obs):
                 continue
             mat_obs = lambda: (f"(IMat {coq_frame_obs(st['tf'])} {C.cz(digest(st['stats']))})"   # noqa: E731
                                if st["ok"] else "IRaise")
+            if ev["e"] == "badstats":
+                continue                          # a failed call on a throw-away object: the world is unchanged
             if ev["e"] == "derived":
                 # Model/IOSup.v: d = cur[sel]; d.materialize(path or None, col_stats=...).  The harness runs it
                 # only while the file exists, where the selection itself cannot matter (identity stands for it).
